@@ -216,10 +216,15 @@ side_by_side_tiff_start(struct Storage* self_) noexcept
                 .is_ref = 1,
             };
             CHECK(self->tiff);
+            // The inner writer is driven directly, not through the HAL, so
+            // its state has to be recorded here. Tiff::stop() only finalizes
+            // and closes the file when the writer's state is Running.
             state = self->tiff->set(self->tiff, &props);
             CHECK(state == DeviceState_Armed);
+            self->tiff->state = state;
             state = self->tiff->start(self->tiff);
             CHECK(state == DeviceState_Running);
+            self->tiff->state = state;
         }
 
     } catch (const std::exception& e) {
